@@ -538,7 +538,7 @@ theorem no_discard_of (cfg : Cfg) (hst : StopsOnAfChange cfg.stopOf) (evs : List
 theorem no_discard (version : Nat → Nat) (backoff : Nat → Nat → Nat) (evs : List Ev) (s : State)
     (nd : (s.items.map (·.id)).Nodup) (hf : AppendsFresh (repaired version backoff) s evs) :
     ∀ c, safe s c = true → safe (run (repaired version backoff) s evs) c = true :=
-  no_discard_of (repaired version backoff) stopsOnAfChange_repaired evs s nd hf
+  no_discard_of (repaired version backoff) stopsOnAfChange_withSkippedSync evs s nd hf
 
 /-- Every context of an arriving task that does not allow failure is tracked from its arrival. -/
 theorem arrival_is_tracked (cfg : Cfg) (s : State) (t : Task) (h : t.allowFailure = false) :
@@ -562,7 +562,7 @@ theorem failed_run_discards_nothing (version : Nat → Nat) (backoff : Nat → N
   have hmem : c ∈ total s := by
     simp only [total, hlog, hsk, List.append_nil, pendingNF, List.mem_flatMap, List.mem_filter]
     exact ⟨b, ⟨hb, by simp [haf]⟩, hc⟩
-  have := step_covers (repaired version backoff) stopsOnAfChange_repaired s (.run false rnd) nd c hmem
+  have := step_covers (repaired version backoff) stopsOnAfChange_withSkippedSync s (.run false rnd) nd c hmem
   cases hi : s.items with
   | nil => rw [hi] at hb; simp at hb
   | cons t rest =>
